@@ -1076,6 +1076,43 @@ func (w *world) exec1(line string) {
 		}
 		fmt.Fprintf(w.ann, "fsput %s %s\n", hx(p), tok[2])
 		fmt.Fprintln(w.out, "fsput ok")
+	case "fsedit":
+		// fsedit <lead|tail|gaps|all>: the multi-entry snapshot files are edited from outside between two runs,
+		// the way editors, formatters and merges do: the blank line at the top removed, the final newline
+		// removed, the blank lines between entries removed.  The entries themselves are untouched.
+		var paths []string
+		filepath.Walk(w.root, func(p string, info os.FileInfo, err error) error {
+			if err == nil && !info.IsDir() && strings.HasSuffix(p, ".snap") {
+				paths = append(paths, p)
+			}
+			return nil
+		})
+		sort.Strings(paths)
+		for _, p := range paths {
+			b, err := os.ReadFile(p)
+			if err != nil || !bytes.HasPrefix(b, []byte("\n[")) || !bytes.HasSuffix(b, []byte("\n---\n")) {
+				continue // not a multi-entry file written by the library
+			}
+			c := string(b)
+			if tok[1] == "gaps" || tok[1] == "all" {
+				c = strings.ReplaceAll(c, "\n---\n\n[", "\n---\n[")
+			}
+			if tok[1] == "lead" || tok[1] == "all" {
+				c = strings.TrimPrefix(c, "\n")
+			}
+			if tok[1] == "tail" || tok[1] == "all" {
+				c = strings.TrimSuffix(c, "\n")
+			}
+			if c == string(b) {
+				continue
+			}
+			if err := os.WriteFile(p, []byte(c), 0o644); err != nil {
+				panic(err)
+			}
+			fmt.Fprintf(w.ann, "ora fs %s %s\n", hx(p), hx(c))
+		}
+		fmt.Fprintln(w.ann, "skipline")
+		fmt.Fprintln(w.out, "skipline")
 	case "fsrm":
 		p := w.abs(unhx(tok[1]))
 		os.Remove(p)
